@@ -178,7 +178,6 @@ def run_group(g, gid):
                         sym_in=sym_in, logmode=True)
         if T is None:
             return
-        T.no_validate = True
         lml, ess = T.outs
         A = [p > 0 for p in P] + [M > 0]
         g.eq("log_marginal_likelihood == accumulated + log mean exp(log weights)", lml, sj.obj(sj.LogV(M * sum(P) / N)), A)
@@ -198,7 +197,6 @@ def run_group(g, gid):
         T = g.try_trace("estimate traces", lambda p: p.estimate(lambda ch: ch["x"] * ch["x"] + ch["y"]), p0, sym_in=sym_in, logmode=True)
         if T is None:
             return
-        T.no_validate = True
         (p_s,) = T.ins
         ch = p_s.traces.get_choices() if hasattr(p_s.traces, "get_choices") else None
         c = rs.canon_trace(p_s.traces)
